@@ -10,6 +10,7 @@ NAMES = ["lib", "library", "pub_sub", "ai"]
 FILE_BASES = ["lib", "types", "service", "foo.bar", "import", "metadata", "class", "common_types", "v1_api", "request"]
 
 
+NS_OVERRIDE_SEGS = ["foo", "bar", "zed", "google", "cloud", "ads", "a1", "x_y"]
 COLLIDING = [("common_types", "common.types"), ("foo.bar", "foo_bar"), ("import", "import_"), ("class_", "class"), ("a_b.c", "a.b_c"), ("metadata", "metadata_")]
 
 
@@ -45,14 +46,22 @@ def gen_case(r: apigen.Rng, idx: int):
     case["override_name"] = None; case["override_ns"] = None
     if r.maybe(0.2):
         case["override_name"] = r.pick(["my_lib", "shelf"]); opts.append("python-gapic-name=" + case["override_name"])
-    if r.maybe(0.2):
-        case["override_ns"] = r.pick(["foo.bar", "zed"]); opts.append("python-gapic-namespace=" + case["override_ns"])
+    if r.maybe(0.4):
+        # the namespace key is REPEATABLE (protoc joins several --python_gapic_opt flags with ","), and every value may itself be
+        # in dot notation: 1..3 values x 1..3 dotted components each, placed anywhere among the other options (order kept)
+        vals = [".".join(r.pick(NS_OVERRIDE_SEGS) for _ in range(r.pick([1, 1, 2, 3]))) for _ in range(r.pick([1, 2, 2, 3]))]
+        case["override_ns"] = vals
+        at = sorted(r.randint(0, len(opts)) for _ in vals)
+        for k in range(len(vals) - 1, -1, -1):
+            opts.insert(at[k], "python-gapic-namespace=" + vals[k])
     if r.maybe(0.15):
         opts.append("warehouse-package-name=acme-lib-pkg")
     case["opts"] = opts
     case["unknown"] = r.sample(["zzz=1", "go_package=x/y", "paths=source_relative", "foo=a=b", "Mgoogle/api/x.proto=example.com/x;x", "unknown"], r.randint(1, 3))
     if r.maybe(0.3):
         case["unknown"].append(f"transport={tr}")        # a repeated known key with the same value
+    if case["override_name"] and r.maybe(0.3):
+        case["unknown"].append("python-gapic-name=" + case["override_name"])      # likewise (the last value of `name` is the one read)
     return case
 
 
@@ -103,7 +112,11 @@ def build_files(case):
 
 
 def expected_root(case):
-    ns = case["override_ns"].split(".") if case["override_ns"] else case["ns"]
+    ov = case["override_ns"]
+    if isinstance(ov, str):
+        ov = [ov]                  # older corpus entries: one value
+    # one directory per dotted component of every value of the (repeatable) namespace key, in the order given
+    ns = [seg for v in ov for seg in v.split(".")] if ov else case["ns"]
     name = case["override_name"] if case["override_name"] else case["name"]
     ver = case["version"]
     return "/".join([s.lower() for s in ns] + [name + ("_" + ver if ver else "")]), "/".join([s.lower() for s in ns] + [name])
@@ -302,6 +315,75 @@ def t2_naming_options(ctx, r):
                     break
 
 
+NS_VALUE_SEGS = ["google", "cloud", "ads", "foo", "bar", "a1", "x_y", "Zed", "ACME"]
+NAME_VALUES = ["my_lib", "shelf", "pub sub", "pub_sub_2", "ai", "My_Api"]
+
+
+def naming_with_overrides(pkgs, params):
+    """`Naming.build(*files, opts=Options.build(params))` -> the observables of the package root"""
+    import warnings
+    from google.protobuf import descriptor_pb2
+    from gapic.schema.naming import Naming
+    from gapic.utils import Options
+    with warnings.catch_warnings():
+        warnings.simplefilter("ignore")
+        opts = Options.build(params)
+    nm = Naming.build(*[descriptor_pb2.FileDescriptorProto(name=f"f{k}.proto", package=p) for k, p in enumerate(pkgs)], opts=opts)
+    return {"nsWith": [x.lower() for x in nm.namespace], "module": nm.module_name, "versionedModule": nm.versioned_module_name,
+            "module_namespace": list(nm.module_namespace), "version": nm.version}
+
+
+def t2_naming_overrides(ctx, r):
+    """the CLI overrides of `Naming.build`: the namespace key REPEATED 1..4 times, every value with 1..3 dotted components, the
+    name key (snake case / blanks / repeated), given as an option STRING (Options.build -> Naming.build), against the model
+    (`nsWith`, `nameOverrideText` + the pinned `to_valid_module_name`); and, model-free, the package root they yield"""
+    ops, metas = [], []
+    for i in range(ctx.n(200, 3000)):
+        ns = [r.pick(NS_POOL) for _ in range(r.randint(0, 3))]
+        ver = r.pick(VERSIONS)
+        pkg = ".".join(ns + [r.pick(NAMES)] + ([ver] if ver else []))
+        nvals = r.pick([0, 1, 1, 2, 2, 3, 4])
+        vals = [".".join(r.pick(NS_VALUE_SEGS) for _ in range(r.pick([1, 1, 2, 3]))) for _ in range(nvals)]
+        names = [r.pick(NAME_VALUES) for _ in range(r.pick([0, 0, 1, 1, 2]))]
+        parts = ["python-gapic-namespace=" + v for v in vals]
+        for nmv in names:
+            parts.insert(r.randint(0, len(parts)), "python-gapic-name=" + nmv)
+        for _ in range(r.randint(0, 2)):
+            parts.insert(r.randint(0, len(parts)), r.pick(["transport=grpc+rest", "metadata", "zzz=1", "python-gapic-foo=x.y", "warehouse-package-name=a-b"]))
+        params = ",".join(parts)
+        inp = {"pkgs": [pkg], "params": params}
+        try:
+            impl = naming_with_overrides([pkg], params)
+        except Exception as e:
+            ctx.fail("naming-override-raises", f"Naming.build for package {pkg!r} with options {params!r} raises {type(e).__name__}: {e}", {"naming": inp})
+            continue
+        op = {"op": "c11.naming", "pkgs": [pkg], "namespace": vals}
+        given = [p.split("=", 1)[1] for p in parts if p.startswith("python-gapic-name=")]
+        if given:
+            op["name"] = given[-1]          # `opts.pop("name", [""]).pop()`: the LAST value of the repeated key is the one read
+        ops.append(op); metas.append((inp, vals, names, impl, op))
+    for (inp, vals, names, impl, op), mo in zip(metas, ctx.driver.ask(ops)):
+        ctx.case(distinct_key=["override", json.dumps(inp, sort_keys=True)]); ctx.traces += 1
+        ctx.count("namespace-override", f"{len(vals)} values, {'dotted' if any('.' in v for v in vals) else 'plain'}" if vals else "none")
+        check_override_root(ctx, inp, vals, impl)
+        for k in ("nsWith", "module", "versionedModule"):
+            if mo.get(k) != impl[k]:
+                ctx.disagree("T2:c11.Naming.build+overrides", f"{inp}: {k}: model {mo.get(k)!r} vs impl {impl[k]!r}", {"naming": inp, "op": op})
+                break
+
+
+def check_override_root(ctx, inp, vals, impl):
+    """the package root under a namespace override, stated on the implementation alone: one directory per dotted component of
+    every value (in order), each a plain path segment — so that the directory path is the import path the emitted modules use"""
+    if vals:
+        want = [seg.lower() for v in vals for seg in v.split(".")]
+        if impl["nsWith"] != want:
+            ctx.fail("package-root:namespace-override", f"{inp}: namespace directories {impl['nsWith']} for the override values {vals} (expected {want})", {"naming": inp})
+    if any((not x) or "/" in x or "." in x for x in impl["nsWith"]) or any("." in x for x in impl["module_namespace"]) \
+            or not impl["module"] or "/" in impl["versionedModule"]:
+        ctx.fail("naming-gives-bad-root", f"{inp}: namespace {impl['nsWith']} (modules {impl['module_namespace']}) module {impl['versionedModule']!r}", {"naming": inp})
+
+
 def run_case(ctx, case, label):
     files, targets = build_files(case)
     payload = {"case": case}
@@ -367,11 +449,14 @@ CORPUS = [
 def run(ctx):
     ctx.rule = ("layout profile: 0..3 namespace segments x versions {v1, v1beta1, v1p1beta1, v2alpha, none} x 1..3 target files with names needing "
                 "sanitising x optional dependency file x optional one-level sub-package x option strings (known, unknown, repeated keys, "
-                "name/namespace overrides); _get_filename: every template of both template sets x random namings; distinct by case")
+                "name override, namespace override as 1..3 repeated keys each with 1..3 dotted components); Naming.build under "
+                "override option strings (0..4 namespace values, 0..2 name values) x packages; _get_filename: every template of both template sets x random namings; distinct by case")
     ctx.assume("sub-packages are generated one level deep only (deeper nesting is DESIGN §9-F7, outside this profile)")
+    ctx.assume("namespace/name override values are made of [A-Za-z0-9_] components separated by '.' (names also by blanks), no empty component")
     r = ctx.rng("layout")
     t2_filenames(ctx, r)
     t2_naming_options(ctx, r)
+    t2_naming_overrides(ctx, r)
     for c in CORPUS:
         run_case(ctx, c, "corpus")
         ctx.case({"case": c["pkg"], "unknown": c["unknown"]}, distinct_key=["case", json.dumps(c, sort_keys=True)])
@@ -384,6 +469,7 @@ def run(ctx):
 
 def search(ctx):
     r = ctx.rng("search")
+    t2_naming_overrides(ctx, r)
     for i in range(150):
         run_case(ctx, gen_case(r, i), f"search{i}")
 
@@ -393,6 +479,13 @@ def replay(ctx, payload):
     ctx.driver = leanio.Driver()
     if "case" in payload:
         run_case(ctx, payload["case"], "replay")
+    if "naming" in payload:
+        inp = payload["naming"]
+        vals = [p.strip().split("=", 1)[1] for p in inp["params"].split(",") if p.strip().startswith("python-gapic-namespace=")]
+        try:
+            check_override_root(ctx, inp, vals, naming_with_overrides(inp["pkgs"], inp["params"]))
+        except Exception as e:
+            ctx.fail("naming-override-raises", f"{inp}: {type(e).__name__}: {e}", payload)
     for f in ctx.failures:
         print("  failure:", f["key"], "-", f["what"])
     return not ctx.failures
@@ -404,7 +497,8 @@ CLAIM = dict(
          "library sources sit under <namespace>/<name>_<version>/ (python_under_package_root), substitution is a segment-wise "
          "homomorphism, __init__.py closure at template level, __init__ templates are never gated, private templates and the metadata "
          "file are skipped as stated. Tie: T1 bridge of template lists/regexes/tables; T2 the real string-level _get_filename vs the "
-         "model on every template x random namings; T3 the response's file-name set vs the model's `renders` on generated layouts; "
+         "model on every template x random namings, Naming.build under name/namespace override option strings (repeated and dotted "
+         "namespace keys: nsOverride_eq_flatMap, nsOverride_spelling, nsOverride_segments_clean) vs the model; T3 the response's file-name set vs the model's `renders` on generated layouts; "
          "model-independent oracle for every clause (uniqueness, normalisation, root, closure, counts, dependency files, private/empty "
          "modules, unknown options byte-identical, proto3-optional flag).",
     technique="Lean 4 theorems + `decide` over translator-bridged template tables; differential T2/T3 of file names; direct oracle",
